@@ -3,10 +3,12 @@ package main
 import (
 	"bytes"
 	"context"
+	"encoding/binary"
 	"encoding/hex"
 	"errors"
 	"fmt"
 	"io"
+	"kvharness/internal/mut"
 	"math/rand"
 	"net"
 	"strconv"
@@ -462,6 +464,8 @@ func driveClient(run *sessionRun, pipelined bool, T time.Duration, r *rand.Rand)
 				full := encodeReq(k, &sReq{maj: 1, min: 4, bc: 1, writeOk: true, items: []sItem{{op: opActivate, payload: 0}}})
 				_, _ = c.Write(full[:len(full)-5])
 				closeAtEnd = true
+			case "extra-item", "bad-type", "bad-tag", "mutated":
+				_, _ = c.Write(malformedRequest(k, a.how))
 			case "stall":
 				full := encodeReq(k, &sReq{maj: 1, min: 4, bc: 1, writeOk: true, items: []sItem{{op: opActivate, payload: 0}}})
 				_, _ = c.Write(full[:12])
@@ -671,7 +675,7 @@ func genScript(r *rand.Rand, common sCfg, saConfigured bool, o scriptOpts) (sCfg
 			}
 			arrs = append(arrs, sArr{kind: 'R', req: q})
 		case x < 88 || (last && x < 50):
-			how := []string{"garbage", "wrongtype", "truncated-close"}[r.Intn(3)]
+			how := []string{"garbage", "wrongtype", "truncated-close", "extra-item", "bad-type", "bad-tag", "mutated"}[r.Intn(7)]
 			if o.allowStall && cfg.rt && r.Intn(3) == 0 {
 				how = "stall"
 			}
@@ -684,4 +688,68 @@ func genScript(r *rand.Rand, common sCfg, saConfigured bool, o scriptOpts) (sCfg
 	}
 	arrs = append(arrs, sArr{kind: 'X'})
 	return cfg, arrs
+}
+
+// malformedRequest: a properly framed request that the decoder must reject (the model's E arrival):
+//
+//	extra-item: an item no field claims, after the last batch item, inside the (re-measured) Request Message
+//	bad-type:   the request header announced with a type other than structure
+//	bad-tag:    the required Batch Count replaced by another tag
+//	mutated:    one of several deeper structural defects (item inside the header, inflated inner length, bad boolean)
+func malformedRequest(k int, how string) []byte {
+	full := encodeReq(k, &sReq{maj: 1, min: 4, bc: 1, writeOk: true, items: []sItem{{op: opActivate, payload: 0}}})
+	nodes := mut.All(mut.Parse(full))
+	setLen := func(b []byte, off int, l uint32) { binary.BigEndian.PutUint32(b[off+4:], l) }
+	extra := []byte{0x42, 0x00, 0x6a, 0x02, 0, 0, 0, 4, 0, 0, 0, 7, 0, 0, 0, 0}
+	switch how {
+	case "extra-item":
+		b := append(append([]byte(nil), full...), extra...)
+		setLen(b, 0, uint32(len(b)-8))
+		return b
+	case "bad-type":
+		b := append([]byte(nil), full...)
+		b[8+3] = 0x02
+		return b
+	case "bad-tag":
+		b := append([]byte(nil), full...)
+		for _, n := range nodes {
+			if n.Tag == 0x42000d {
+				b[n.Off+2] = 0x0e
+			}
+		}
+		return b
+	}
+	switch k % 3 {
+	case 0: // an unclaimed item at the end of the header, all enclosing lengths repaired
+		var hdr *mut.Node
+		for _, n := range nodes {
+			if n.Tag == 0x420077 {
+				hdr = n
+			}
+		}
+		b := append(append(append([]byte(nil), full[:hdr.End]...), extra...), full[hdr.End:]...)
+		setLen(b, hdr.Off, hdr.Len+uint32(len(extra)))
+		setLen(b, 0, uint32(len(b)-8))
+		return b
+	case 1: // the batch item claims 8 bytes more than the message holds
+		b := append([]byte(nil), full...)
+		for _, n := range nodes {
+			if n.Tag == 0x42000f {
+				setLen(b, n.Off, n.Len+8)
+			}
+		}
+		return b
+	default: // two items where the payload's only field is expected
+		var pl *mut.Node
+		for _, n := range nodes {
+			if n.Tag == 0x420079 {
+				pl = n
+			}
+		}
+		b := append(append(append([]byte(nil), full[:pl.End]...), extra...), full[pl.End:]...)
+		setLen(b, pl.Off, pl.Len+uint32(len(extra)))
+		setLen(b, pl.Parent.Off, pl.Parent.Len+uint32(len(extra)))
+		setLen(b, 0, uint32(len(b)-8))
+		return b
+	}
 }
